@@ -206,6 +206,17 @@ Definition c12_go_dom (cfg : go_config) (items : list ritem) : bool :=
   forallb (fun id => match c12_before c12_ch_dot id with Some p => negb (mem_str p c12_go_vocab) | None => true end)
           (flat_map c12_item_ids items).
 
+(* ... and for configurations WITH acronyms: alphanumeric acronyms (letters and digits of ASCII), ASCII type names and ASCII
+   type_mappings values (on such input the rewriting only changes the case of letters: it cannot turn a
+   name into `time.X` / `json.X`, and cannot damage one: Proofs/GoAcronyms.v) *)
+Definition c12_alnum (c : char) : bool := is_aalpha c || is_adigit c.
+Definition c12_go_dom_acr (cfg : go_config) (items : list ritem) : bool :=
+  forallb (forallb c12_alnum) (go_uppercase_acronyms cfg) &&
+  forallb (fun kv => forallb is_ascii (snd kv)) (go_type_mappings cfg) &&
+  forallb (forallb is_ascii) (flat_map c12_item_ids items) &&
+  forallb (fun id => match c12_before c12_ch_dot id with Some p => negb (mem_str p c12_go_vocab) | None => true end)
+          (flat_map c12_item_ids items).
+
 (* ------------------------------------------------------------------ Kotlin *)
 Definition c12_kt_vocab : list str := [lit "Serializable"; lit "SerialName"; lit "JvmInline"].
 Definition c12_kt_member_uses (m : kt_member) : list str :=
